@@ -909,16 +909,31 @@ impl Xot {
                 "Cannot replace a node with itself or one of its descendants".to_string(),
             ));
         }
-        // record previous sibling
+        // everything has been validated: from here on nothing is refused
         let previous_node = self.previous_sibling(replaced_node);
-        // remove the replaced node, use low-level remove_tree to avoid
-        // text node reconciliation and document element detection
+        let next_node = self.next_sibling(replaced_node);
+        if previous_node == Some(replacing_node) || next_node == Some(replacing_node) {
+            // the replacing node is a direct neighbour: removing the replaced
+            // node (which consolidates text) puts it in the right position
+            return self.remove(replaced_node);
+        }
+        // remove the replaced node, use low-level remove_subtree to avoid
+        // text node reconciliation with the node that is going away
         replaced_node.get().remove_subtree(self.arena_mut());
-        // now insert the replacing node
+        // now insert the replacing node at that position
         if let Some(previous_node) = previous_node {
             self.insert_after(previous_node, replacing_node)?;
+        } else if let Some(next_node) = next_node {
+            self.insert_before(next_node, replacing_node)?;
         } else {
-            self.prepend(parent, replacing_node)?;
+            self.append(parent, replacing_node)?;
+        }
+        // a replacing text node may have been merged into one of two text
+        // neighbours, which are then adjacent to each other
+        if let (Some(previous_node), Some(next_node)) = (previous_node, next_node) {
+            if self.next_sibling(previous_node) == Some(next_node) {
+                self.remove_consolidate_text_nodes(Some(previous_node), Some(next_node));
+            }
         }
         Ok(())
     }
